@@ -142,4 +142,71 @@ def pktCloneM (H : Heap) (p : PacketM) : Heap × PacketM :=
   let r2 := cloneBytes r.1 p.payload
   (r2.1, { header := r.2, payload := r2.2, paddingSize := p.paddingSize })
 
+/-! ### the five mutations of C20, as heap operations on one side -/
+
+def modAt {α} (l : List α) (i : Nat) (f : α → α) : List α :=
+  match l, i with
+  | [], _ => []
+  | a :: r, 0 => f a :: r
+  | a :: r, i + 1 => a :: modAt r i f
+
+/-- replace the payload slice header of the first element with this id -/
+def replaceFirst (cs : List ExtCell) (id : UInt8) (s : Sl) : List ExtCell :=
+  match cs with
+  | [] => []
+  | c :: r => if c.id == id then { c with payload := s } :: r else c :: replaceFirst r id s
+
+/-- remove the first element with this id -/
+def eraseFirst (cs : List ExtCell) (id : UInt8) : List ExtCell :=
+  match cs with
+  | [] => []
+  | c :: r => if c.id == id then r else c :: eraseFirst r id
+
+inductive MutM where
+  | payloadByte (i : Nat)                  -- p.Payload[i] ^= 0xFF
+  | csrcEntry (i : Nat)                    -- p.CSRC[i] ^= 0xFFFFFFFF
+  | extByte (j i : Nat)                    -- p.Extensions[j].payload[i] ^= 0xFF
+  | setExt (id : UInt8) (payload : Bytes)  -- p.SetExtension(id, payload)
+  | delExt (id : UInt8)                    -- p.DelExtension(id)
+  deriving Repr
+
+/-- what a mutation does to memory and to the mutated variable itself.
+    Stores go into the backing arrays the value points at.  `DelExtension` shifts inside the
+    `[]Extension` array in place.  `SetExtension` keeps the caller's payload slice (a cell of its
+    own, allocated here) and either stores its header into the array in place (id present) or
+    appends (modelled without capacities: a new array).  Validation and profile selection do not
+    touch memory and are left out. -/
+def applyMutM (H : Heap) (p : PacketM) : MutM → Heap × PacketM
+  | .payloadByte i =>
+    match p.payload with
+    | .nil => (H, p)
+    | .at a => (H.set a (.bytes (modAt (readBytes H p.payload) i (· ^^^ 0xFF))), p)
+  | .csrcEntry i =>
+    match p.header.csrc with
+    | .nil => (H, p)
+    | .at a => (H.set a (.words (modAt (readWords H p.header.csrc) i (· ^^^ 0xFFFFFFFF))), p)
+  | .extByte j i =>
+    match (readCells H p.header.exts)[j]? with
+    | some c =>
+      match c.payload with
+      | .nil => (H, p)
+      | .at a => (H.set a (.bytes (modAt (readBytes H c.payload) i (· ^^^ 0xFF))), p)
+    | none => (H, p)
+  | .delExt id =>
+    match p.header.exts with
+    | .nil => (H, p)
+    | .at a => (H.set a (.exts (eraseFirst (readCells H p.header.exts) id)), p)
+  | .setExt id pl =>
+    let Hp := H ++ [.bytes pl]
+    let s := Sl.at H.length
+    match p.header.exts with
+    | .nil =>
+      (Hp ++ [.exts [{ id := id, payload := s }]],
+       { p with header := { p.header with exts := .at Hp.length } })
+    | .at a =>
+      let cs := readCells H p.header.exts
+      if cs.any (·.id == id) then (Hp.set a (.exts (replaceFirst cs id s)), p)
+      else (Hp ++ [.exts (cs ++ [{ id := id, payload := s }])],
+            { p with header := { p.header with exts := .at Hp.length } })
+
 end Rtp.Model.Mem
